@@ -1,4 +1,222 @@
-(* C15 - placeholder while the model is being tied *)
-From GV Require Import Base.Prelude Types.Scalars Types.Coerce.
-Example C15_example : is_nonnull (TNonNull (TNamed [])) = true.
-Proof. reflexivity. Qed.
+(* C15 - input coercion and input validation agree on values, literals and variables.
+   Theorems only; proofs live in Types/CoerceProps.v.  Model: Types/Coerce.v (+ Types/Scalars.v).
+
+   Quantification: every theorem holds for all oracles pf (float(s) of a literal's text),
+   fs (str(x) of a float), md (the interpreter's int<->str digit limit), all schemas s of the
+   modelled grammar (built-in scalars, enums, recursive / OneOf input objects, literal defaults),
+   all input types t over s, all Python values v / literals l / variable maps, and all fuel.
+   Fuel: [settled r] = the run neither ran out of fuel nor raised (Crash = TypeError of an invalid
+   default value or of a type that is no input type); validate = Some errs = not out of fuel.
+   Hypotheses:
+     wf_schema s  field names unique, no default on a OneOf field, no enum member whose internal
+                  value is None/Undefined (what validate_schema / build_schema guarantee)
+     wf_val v     dict keys unique (a Python dict)
+     lit_wf l     no object literal names a field twice (UniqueInputFieldNamesRule)
+     top_ok       the literal is not itself a variable without a value in a nullable position
+                  (get_argument_values / coerce_variable_values handle that case before calling). *)
+From GV Require Import Base.Prelude Types.Scalars Types.ScalarsProps Types.Coerce Types.CoerceProps.
+
+(* coerce_input_value fails  <->  validate_input_value reports at least one error *)
+Theorem C15_value_agree : forall pf md s fuel t v p errs,
+  wf_schema s -> wf_val v ->
+  settled (coerce_val pf md s fuel t v) ->
+  validate_val md s fuel t v p = Some errs ->
+  (coerce_val pf md s fuel t v = Invalid <-> errs <> []).
+Proof. intros pf md s fuel t v p errs W. exact (value_agree pf md s W fuel t v p errs). Qed.
+Print Assumptions C15_value_agree.
+
+(* coerce_input_literal fails  <->  validate_input_literal (with the same variable values) reports *)
+Theorem C15_literal_agree : forall pf s fuel vars t l p errs,
+  wf_schema s -> lit_wf l -> top_ok vars t l = true ->
+  settled (coerce_lit pf s fuel vars t l) ->
+  validate_lit pf s fuel false vars t l p = Some errs ->
+  (coerce_lit pf s fuel vars t l = Invalid <-> errs <> []).
+Proof.
+  intros pf s fuel vars t l p errs W Wl T.
+  exact (lit_agree_gen pf s W fuel false vars t l p errs Wl (fun E => False_ind _ (Bool.diff_false_true E)) (fun _ => T)).
+Qed.
+Print Assumptions C15_literal_agree.
+
+(* the hypothesis top_ok is needed: a variable without a value in a nullable position coerces to
+   "no value" (the implementation's overloaded Undefined) while validation reports nothing *)
+Example C15_literal_agree_needs_top_ok :
+  let s := [([73], DScalar SInt)] in
+  coerce_lit (fun _ => None) s 3 [] (TNamed [73]) (LVar [97]) = Invalid
+  /\ validate_lit (fun _ => None) s 3 false [] (TNamed [73]) (LVar [97]) [] = Some [].
+Proof. split; reflexivity. Qed.
+
+(* ... and so is lit_wf: a OneOf object literal naming its field twice coerces (last one wins)
+   but is rejected by validation *)
+Example C15_literal_agree_needs_unique_fields :
+  let s := [([73], DScalar SInt); ([79], DInput true [mkField [97] (TNamed [73]) None])] in
+  let l := LObject [([97], LInt [49]); ([97], LInt [50])] in
+  coerce_lit (fun _ => None) s 5 [] (TNamed [79]) l = Good (PDict [([97], PInt 2%Z)])
+  /\ validate_lit (fun _ => None) s 5 false [] (TNamed [79]) l [] = Some [[]].
+Proof. split; reflexivity. Qed.
+
+(* the static validator used by ValuesOfCorrectTypeRule accepts a constant literal exactly when
+   its coercion (without variables) succeeds.
+   _partial: the rule itself = this validator called by a visitor at every outermost value node with
+   the input type TypeInfo computes; that traversal is not modelled here (it is tied by the
+   correspondence run through validate(schema, doc, [ValuesOfCorrectTypeRule])). *)
+Theorem C15_rule_agrees_partial : forall pf s fuel t l p errs,
+  wf_schema s -> lit_wf l -> lit_const l ->
+  settled (coerce_lit pf s fuel [] t l) ->
+  validate_lit pf s fuel true [] t l p = Some errs ->
+  (coerce_lit pf s fuel [] t l = Invalid <-> errs <> []).
+Proof.
+  intros pf s fuel t l p errs W Wl C.
+  exact (lit_agree_gen pf s W fuel true [] t l p errs Wl (fun _ => C)
+           (fun E => False_ind _ (Bool.diff_true_false E))).
+Qed.
+Print Assumptions C15_rule_agrees_partial.
+
+(* a coerced value conforms to its type: 32-bit Int, finite Float, text, bool, a declared enum
+   value, exactly the declared fields with defaults applied and required fields present, exactly
+   one non-null entry for OneOf, no null under non-null (see [conforms]) *)
+Theorem C15_result_conforms : forall pf md s fuel t,
+  wf_schema s ->
+  (forall v r, coerce_val pf md s fuel t v = Good r -> conforms s t r)
+  /\ (forall l r, coerce_lit pf s fuel [] t l = Good r -> conforms s t r).
+Proof.
+  intros pf md s fuel t W. split.
+  - intros v r. exact (conforms_val pf md s W fuel t v r).
+  - intros l r. exact (conforms_lit pf s W fuel t l r).
+Qed.
+Print Assumptions C15_result_conforms.
+
+(* what "conforms" gives for the cases named in the property *)
+Theorem C15_conforms_meaning : forall s,
+  (forall t v, conforms s (TNonNull t) v -> is_null v = false)
+  /\ (forall n v, conforms s (TNamed n) v -> assoc n s = Some (DScalar SInt) ->
+        v = PNone \/ exists z, v = PInt z /\ (- 2 ^ 31 <= z <= 2 ^ 31 - 1)%Z)
+  /\ (forall n v, conforms s (TNamed n) v -> assoc n s = Some (DScalar SFloat) ->
+        v = PNone \/ exists neg m e, v = PFloat (FFin neg m e)).
+Proof.
+  intro s. split; [|split].
+  - intros t v H. inversion H; subst; [discriminate | assumption].
+  - intros n v H A. inversion H; subst; try congruence; [left; reflexivity|].
+    rewrite A in *. match goal with X : Some _ = Some _ |- _ => inversion X; subst end.
+    right. assumption.
+  - intros n v H A. inversion H; subst; try congruence; [left; reflexivity|].
+    rewrite A in *. match goal with X : Some _ = Some _ |- _ => inversion X; subst end.
+    right. assumption.
+Qed.
+Print Assumptions C15_conforms_meaning.
+
+(* converting an accepted value to a literal and coercing the literal gives the same result.
+   The two oracles must be inverse on what is emitted (CPython: float(repr(x)) == x and
+   float(str(z)) == float(z) for representable z), and the digit limit off or >= 309 (CPython: >= 640) *)
+Theorem C15_literal_roundtrip : forall pf fs md s fuel t v r,
+  wf_schema s ->
+  (md = 0 \/ 309 <= md) ->
+  (forall z str, int_representable z = true -> int_str md z = Some str -> pf str = Some (float_of_int z)) ->
+  (forall x, f_finite x = true -> pf (fs x) = Some x) ->
+  coerce_val pf md s fuel t v = Good r ->
+  exists l, to_literal fs md s fuel t v = Good l /\ coerce_lit pf s fuel [] t l = Good r.
+Proof.
+  intros pf fs md s fuel t v r W M H1 H2 H.
+  destruct (roundtrip pf fs md s W M H1 H2 fuel t v r H) as [l [A [B _]]]. exists l. auto.
+Qed.
+Print Assumptions C15_literal_roundtrip.
+
+(* get_variable_values: either errors (at least one) or a value for every variable that is provided
+   or has a default, and that value conforms to the variable's type *)
+Theorem C15_variables_errors_or_value : forall pf md s fuel defs inputs,
+  wf_schema s -> (forall k v, In (k, v) inputs -> wf_val v) ->
+  match coerce_variables pf md s fuel defs inputs with
+  | VValues cs =>
+      forall d, In d defs ->
+        (is_undef (dget (v_name d) inputs) = false \/ v_default d <> None) ->
+        exists y, In (v_name d, y) cs /\ conforms s (v_type d) y
+  | VErrors es => es <> []
+  | VCrash | VFuel => True
+  end.
+Proof.
+  intros pf md s fuel defs inputs W Wi. unfold coerce_variables.
+  destruct (coerce_vars_loop pf md s fuel defs inputs) as [[[|e es] cs]| | |] eqn:L; try exact I.
+  - intros d. exact (vars_loop_complete pf md s W fuel inputs Wi defs cs L d).
+  - discriminate.
+Qed.
+Print Assumptions C15_variables_errors_or_value.
+
+(* fuel: once a run has settled (not out of fuel, no TypeError), every larger fuel gives the same
+   answer - the statements above do not depend on the fuel chosen, only on it being enough *)
+Theorem C15_fuel_stable : forall pf md s f k,
+  (forall t v, settled (coerce_val pf md s f t v) -> coerce_val pf md s (k + f) t v = coerce_val pf md s f t v)
+  /\ (forall vars t l, settled (coerce_lit pf s f vars t l) ->
+        coerce_lit pf s (k + f) vars t l = coerce_lit pf s f vars t l)
+  /\ (forall t v p e, validate_val md s f t v p = Some e -> validate_val md s (k + f) t v p = Some e)
+  /\ (forall st vars t l p e, validate_lit pf s f st vars t l p = Some e ->
+        validate_lit pf s (k + f) st vars t l p = Some e).
+Proof. exact fuel_stable. Qed.
+Print Assumptions C15_fuel_stable.
+
+(* ------------------------------------------------------------------ non-vacuity *)
+Section Examples.
+  (* enum E { A }  input I { a: Int = 3, e: [E!], r: I, d: String! }  input O @oneOf { x: Int, y: I } *)
+  Let tInt := TNamed [73].
+  Let s : schema :=
+    [([73], DScalar SInt); ([83], DScalar SString);
+     ([69], DEnum [([65], PStr [65])]);
+     ([74], DInput false [mkField [97] tInt (Some (LInt [51]));
+                          mkField [101] (TList (TNonNull (TNamed [69]))) None;
+                          mkField [114] (TNamed [74]) None;
+                          mkField [100] (TNonNull (TNamed [83])) None]);
+     ([79], DInput true [mkField [120] tInt None; mkField [121] (TNamed [74]) None])].
+  Let pf : text -> option pyfloat := fun _ => None.
+
+  Example C15_ex_wf : wf_schema s.
+  Proof.
+    intros n d H. unfold s in H. cbn [assoc] in H.
+    repeat match type of H with
+           | (if ?c then _ else _) = _ => destruct c
+           end; inversion H; subst; cbn [wf_tdef map f_name f_default].
+    - exact I.
+    - exact I.
+    - intros n0 v [E|[]]. inversion E. reflexivity.
+    - split; [|discriminate]. repeat constructor; cbn; intuition discriminate.
+    - split; [repeat constructor; cbn; intuition discriminate|].
+      intros _ fd [<-|[<-|[]]]; reflexivity.
+  Qed.
+
+  (* defaults applied, nested object, list of enum *)
+  Example C15_ex_coerce :
+    coerce_val pf 0 s 9 (TNamed [74])
+      (PDict [([100], PStr [120]); ([101], PStr [65]); ([114], PDict [([100], PStr []); ([97], PNone)])])
+    = Good (PDict [([97], PInt 3%Z); ([101], PList [PStr [65]]);
+                   ([114], PDict [([97], PNone); ([100], PStr [])]); ([100], PStr [120])]).
+  Proof. vm_compute. reflexivity. Qed.
+
+  (* three errors with their paths: a wrong enum item, a missing required field, an unknown field *)
+  Example C15_ex_validate :
+    validate_val 0 s 9 (TNamed [74])
+      (PDict [([101], PList [PStr [65]; PStr [66]]); ([122], PInt 1%Z)]) []
+    = Some [[PName [101]; PIdx 1]; []; []].
+  Proof. vm_compute. reflexivity. Qed.
+
+  Example C15_ex_oneof :
+    coerce_val pf 0 s 9 (TNamed [79]) (PDict [([120], PInt 1%Z)]) = Good (PDict [([120], PInt 1%Z)])
+    /\ coerce_val pf 0 s 9 (TNamed [79]) (PDict [([120], PInt 1%Z); ([121], PNone)]) = Invalid
+    /\ coerce_val pf 0 s 9 (TNamed [79]) (PDict [([120], PNone)]) = Invalid
+    /\ validate_val 0 s 9 (TNamed [79]) (PDict [([120], PNone)]) [] = Some [[PName [120]]].
+  Proof. vm_compute. repeat split. Qed.
+
+  (* a variable inside an object literal, and the missing-variable-in-a-list rule *)
+  Example C15_ex_literal :
+    coerce_lit pf s 9 [([118], PInt 7%Z)] (TNamed [74])
+      (LObject [([100], LString [113]); ([97], LVar [118])])
+    = Good (PDict [([97], PInt 7%Z); ([100], PStr [113])])
+    /\ coerce_lit pf s 9 [] (TList tInt) (LList [LInt [49]; LVar [118]]) = Good (PList [PInt 1%Z; PNone])
+    /\ coerce_lit pf s 9 [] (TList (TNonNull tInt)) (LList [LVar [118]]) = Invalid.
+  Proof. vm_compute. repeat split. Qed.
+
+  Example C15_ex_variables :
+    coerce_variables pf 0 s 9
+      [mkVar [97] tInt (Some (LInt [53])); mkVar [98] (TNonNull tInt) None; mkVar [99] tInt None]
+      [([98], PInt 2%Z)]
+    = VValues [([97], PInt 5%Z); ([98], PInt 2%Z)]
+    /\ coerce_variables pf 0 s 9 [mkVar [98] (TNonNull tInt) None] [([98], PStr [49])]
+       = VErrors [([98], [])].
+  Proof. vm_compute. repeat split. Qed.
+End Examples.
